@@ -83,6 +83,41 @@ pub fn run(ctx: &Ctx) -> i32 {
         }
         res
     });
+    // ---- big tails: the last chunk of the last frame carries > 64 KiB that no decoder inspects ---------------
+    let nbig = ctx.tier.pick(4u64, 24u64);
+    let big = run_stage(ctx, "big-tail", nbig, |i| {
+        use crate::model::*;
+        let mut rng = Rng::derive(ctx.seed, "C13-big", i);
+        let mut cfg = GenCfg::tiny();
+        cfg.max_frames = 2;
+        let (sp, palprog) = gen::gen_sprite(&mut rng, &cfg);
+        let mut spec = compile_with(&sp, &mut rng, &Variation::none(), &palprog);
+        let n = *rng.pick(&[65_531usize, 65_537, 70_000, 131_080]);
+        let last = spec.frames.len() - 1;
+        let tail = match i % 3 {
+            0 => ChunkSpec::Ignorable { ty: 0x2017, data: rng.bytes(n) },
+            1 => ChunkSpec::Ignorable { ty: 0x2016, data: rng.bytes(n) },
+            _ => ChunkSpec::Ignorable { ty: 0x2006, data: rng.bytes(n) },
+        };
+        spec.frames[last].chunks.push(tail.into());
+        let (bytes, map) = encode(&spec);
+        let mut res = CaseResult::ok(crate::rng::hash_bytes(&bytes), 0, "big-tail-file");
+        if load(&bytes).is_err() {
+            res.outcomes = vec!["skipped:does-not-load".into()];
+            res.nontrivial = false;
+            return res;
+        }
+        // every offset of the first 2 KiB and of the last 2 KiB, every 61st in between
+        let end = map.end_of_frames;
+        let off = ctx.seed as usize % 61;
+        let mut it = (0..end).filter(|o| *o < 2048 || *o + 2048 >= end || *o % 61 == off);
+        enumerate(&bytes, &mut it, "big-tail", &mut res);
+        if i == 0 {
+            res.sample = Some(json!({"big_tail_file_len": bytes.len(), "last_chunk_payload": n}));
+        }
+        res
+    });
+    sum.merge(big);
     // corpus
     let corpus = crate::corpus::list(ctx);
     let thorough = ctx.tier == Tier::Thorough;
